@@ -71,13 +71,32 @@ def mk_proto(u: U, **over):
     f = {"_should_close": u.bool("force_flag"), "_payload": _Payload(u.bool("payload.eof")) if has_payload else None,
          "_upgraded": u.bool("upgraded"), "_exception": Boom("x") if u.choose(2, "has_exception") else None,
          "_payload_parser": "WSREADER" if u.choose(2, "has_payload_parser") else None,
-         "_buffer": _Deq(u.bool("queue.nonempty")), "_tail": u.bytes("tail")}
+         "_buffer": _Deq(u.bool("queue.nonempty")), "_tail": u.bytes("tail"),
+         # the HTTP response parser of the exchange that just ended (None before the first request / after close):
+         # it privately retains the bytes of an incomplete message head (_tail: partial line, _lines: complete lines)
+         "_parser": _RespParser(u) if u.choose(2, "has_parser") else None}
     f.update(over)
     return u.obj("ResponseHandler", f, {}, shared=False), has_payload
 
 
+class _RespParser:
+    def __init__(self, u):
+        self._tail = u.bytes("parser.tail")
+        self._lines = _Deq(u.bool("parser.lines.nonempty"))
+
+    def retains_input(self):
+        return Or(blen(self._tail) > 0, self._lines.nonempty)
+
+
+def parser_retains(fs):
+    p = fs.get("_parser")
+    return p.retains_input() if p is not None else False
+
+
 def clean_spec(fs, has_payload):
-    return And(Not(fs["_should_close"]),
+    """taken from the property, not from the code: clean = complete response, nothing buffered anywhere, no surplus
+    bytes received (in the protocol's own tail OR held back inside the response parser), not upgraded, not failed"""
+    return And(Not(parser_retains(fs)), Not(fs["_should_close"]),
                Or(not has_payload, fs["_payload"].eof if has_payload else True),
                Not(fs["_upgraded"]), fs["_exception"] is None, fs["_payload_parser"] is None,
                Not(fs["_buffer"].nonempty), blen(fs["_tail"]) == 0)
@@ -94,7 +113,9 @@ def proto_should_close(u: U):
     if out.ok:
         u.check("C06.proto.should_close.equals_not_clean", Iff(out.value, Not(spec)),
                 "should_close <=> forced, or response unread, or upgraded, or failed, or custom parser, or queued message, "
-                "or leftover bytes")
+                "or leftover bytes - including bytes of an incomplete further message held back inside the response parser",
+                known=[("F6c", And(parser_retains(fields(p)), Not(out.value)))],
+                witness={"parser_retains_input": parser_retains(fields(p)), "should_close": out.value})
         u.check("C06.proto.should_close.is_bool", isinstance(out.value, bool) or is_sym(out.value), "a bool")
     g = u.load(PROTO, "ResponseHandler.force_close")
     u.call(g, p)
